@@ -23,6 +23,27 @@ SEEDS = {
  "seed-C18": dict(property="C18", also=[], needs="a list of dicts where an item is (or becomes) empty: the list merge keeps an item only if update() returned a truthy dict ('{} means deleted')"),
  "seed-C19": dict(property="C19", also=["C07"], needs="STYLE WIDTH [attribute] validated without a version or with version >= 8.2: a new expression alternative (copied from SIZE, which uses anyOf) overlaps the binding alternative under WIDTH's oneOf"),
  "seed-C20": dict(property="C20", also=[], needs="mappyfile validate over files with >= 255 validation messages plus one unparseable file: parse failures are added after the 255 clamp, 255 + 1 wraps to exit status 0"),
+ # ---- round 2 (sub-agents told which function round 1 had changed, and to pick another mechanism) ----
+ "seed2-C01": dict(property="C01", also=["C02", "C04"], needs="a number whose Python repr is exponent notation (0.00001, 1e16): FLOAT re-defined in mapfile.lark without the exponent part, so the printer's own 1e-05 is read back as a string, a split token or a syntax error"),
+ "seed2-C02": dict(property="C02", also=["C01"], needs="a float written with an exponent and no decimal point (1e6, 5E-1, 1e+16): local FLOAT terminal requires a decimal point; the literal becomes a string, an invented keyword or a parse error"),
+ "seed2-C03": dict(property="C03", also=["C01"], needs="POINTS / PATTERN numbers with more than six decimals (-73.98765432) or |x| < 5e-7: format_pair_list rounds floats to 6 decimals"),
+ "seed2-C04": dict(property="C04", also=["C10"], needs="an AND whose left operand is an explicit (… OR …) group containing an AND: shared join_tests helper strips the group's parentheses when the operator text occurs anywhere inside; the second formatting pass re-groups"),
+ "seed2-C05": dict(property="C05", also=[], needs="a /* */ comment whose text ends in an even number of stars (/** section **/, /***/) followed later by another block comment: textbook CCOMMENT regex eats stars in pairs and the comment swallows the tokens in between"),
+ "seed2-C06": dict(property="C06", also=["C03"], needs="EXPRESSION \"aitkin\"i / FILTER 'x'i (case-insensitive string comparison) with quote=\"'\": the 'i shortcut now goes through standardise_quotes, which rewrites the quote character stored as part of the value"),
+ "seed2-C07": dict(property="C07", also=[], needs="two sibling objects of one list (two LAYERs, two CLASSes) that each have an object-level fault (missing required / unknown keyword): get_error_messages de-duplicates on the path with trailing indexes stripped"),
+ "seed2-C08": dict(property="C08", also=[], needs="a multi-line /* */ comment before the keyword: CCOMMENT rewritten as [\\w\\W]*? (same matches) no longer passes Lark's 'may contain a newline' test, so the line counter is not advanced"),
+ "seed2-C09": dict(property="C09", also=[], needs="STYLE PATTERN validated for a version below 6.0: get_versioned_properties skips keys named like JSON-schema data keywords (pattern, metadata, enum, …), and 'pattern' is also a Mapfile keyword with minVersion 6.0"),
+ "seed2-C10": dict(property="C10", also=[], needs="the '!' spelling of NOT directly followed by an unparenthesised comparison (![a] = 1): grammar rule makes '!' bind to a single operand, the stored string re-parses differently"),
+ "seed2-C11": dict(property="C11", also=[], needs="a character-level syntax error (unterminated double-quoted string, stray @ or ;): a friendlier log line reads ex.token / ex.expected, which UnexpectedCharacters does not have -> AttributeError escapes"),
+ "seed2-C12": dict(property="C12", also=[], needs="two or more threads calling loads/open/load with include_comments=True on documents with comments: one Parser per option pair cached with functools.lru_cache, its comment buffer is shared"),
+ "seed2-C13": dict(property="C13", also=["C02"], needs="include_position=True and a METADATA/VALIDATION/VALUES block with a duplicated key and another key in between: superseded pairs are dropped before the content dict is built, changing key order"),
+ "seed2-C14": dict(property="C14", also=[], needs="a # comment whose whole text is a block type name (# layer, #METADATA, ## Class) above an opener or at the end of a keyword line: filtered out as an 'END # TYPE marker' by text, not by position"),
+ "seed2-C15": dict(property="C15", also=[], needs="a line containing /* without a closing */ (a glob in a quoted path, a # comment mentioning /*) before an INCLUDE line: textual block-comment tracking in load_includes skips the directive"),
+ "seed2-C16": dict(property="C16", also=[], needs="align_values=True and an object with a simple keyword printed after a nested object: the alignment column kept on the printer instance is overwritten by the recursion"),
+ "seed2-C17": dict(property="C17", also=[], needs="setdefault(K, default) where K.lower() is present and K is not lower-case: presence tested on self.keys() (case-sensitive view), the default overwrites the stored value"),
+ "seed2-C18": dict(property="C18", also=[], needs="update(..., overwrite=False) where the existing value is falsy (0, '', False, [], None): membership test replaced by truthiness"),
+ "seed2-C19": dict(property="C19", also=["C07"], needs="LABEL REPEATDISTANCE: draft-04 exclusive minimum 0 made effective while the declared default stays 0; create('label', v >= 6.2) no longer validates"),
+ "seed2-C20": dict(property="C20", also=["C13"], needs="open(path) with exactly one of include_comments / include_position: open delegates to load positionally and the two signatures order the flags differently; also `mappyfile format` without --comments writes comments"),
 }
 
 def main():
@@ -34,7 +55,7 @@ def main():
             continue
         conf = open(os.path.join(d, "confirmation.txt")).read().strip() if os.path.exists(os.path.join(d, "confirmation.txt")) else ""
         meta = dict(id=sid, breaks_property=m["property"], related_properties=m["also"], needs_to_manifest=m["needs"],
-                    origin="written by an independent sub-agent that saw only the property text and a scratch worktree of /repo",
+                    origin="written by an independent sub-agent that saw only the property text and a scratch worktree of /repo" + (" (round 2: also told which function the round-1 change had touched, to pick a different mechanism)" if sid.startswith("seed2") else ""),
                     confirmed=conf,
                     what_was_run=["tools/confirm_seed.sh: scratch copy of /repo; demo.py exit 0 without the patch, exit 1 with it; full test-suite with the patch",
                                   "tools/try_seed.sh patch.diff <properties>: the registered quick checks with VERIF_REPO pointing at a scratch copy with the patch applied"],
